@@ -15,6 +15,9 @@
    Model only - the theorems are in proofs/ProtoAnyProofs.v. *)
 From Coq Require Import ZArith List Bool.
 From DG Require Import CaseFormat ProtoWireRef GoSem ProtoMsg ProtoSpecLen.
+(* the conversions of internal/primitive (cast mode) are shared with the Thrift model of c19: float64 -> int64 truncation as
+   amd64 does it, int -> float64 / float64 -> float32 correctly rounded, float32 -> float64 exact, ParseInt, Itoa *)
+From DG Require ThriftAnyDesc J2P P2J.
 Import ListNotations.
 Local Open Scope Z_scope.
 
@@ -74,12 +77,16 @@ Definition wbind (r : wst) (k : list Z -> wst) : wst := if snd r =? 0 then k (fs
 
 Definition is_goint (t : Z) : bool := (1 <=? t) && (t <=? 10).
 
-(* internal/primitive ToInt64 / ToBool / ToFloat64 / ToString: Some (Some x) value, Some None error, None outside the model *)
+(* internal/primitive ToInt64 / ToBool / ToFloat64 / ToString: Some (Some x) value, Some None error, None outside the model
+   (strconv.ParseFloat, FormatFloat, fmt.Sprintf("%v")) *)
 Definition to_int64 (g : gval) : option (option Z) :=
   match g with
   | GBool b => Some (Some (if b then 1 else 0))
   | GInt t z => if is_goint t then Some (Some (to_s 64 z)) else Some None
-  | GF32 _ | GF64 _ | GStr _ | GBytes _ => None
+  | GF32 b => Some (Some (ThriftAnyDesc.f64_to_int64 (P2J.widen32 b)))
+  | GF64 b => Some (Some (ThriftAnyDesc.f64_to_int64 b))
+  | GStr s => Some (ThriftAnyDesc.parse_int64 s)
+  | GBytes s => Some (ThriftAnyDesc.parse_int64 s)
   | _ => Some None
   end.
 Definition to_bool (g : gval) : option (option bool) :=
@@ -96,15 +103,24 @@ Definition to_float64 (g : gval) : option (option Z) :=
   match g with
   | GBool b => Some (Some (if b then 4607182418800017408 else 0))
   | GF64 b => Some (Some b)
-  | GInt t _ => if is_goint t then None else Some None
-  | GF32 _ | GStr _ | GBytes _ => None
+  | GInt t z => if is_goint t then Some (Some (J2P.int2f64 z)) else Some None     (* float64(v), correctly rounded *)
+  | GF32 b => Some (Some (P2J.widen32 b))                                         (* exact *)
+  | GStr _ | GBytes _ => None
   | _ => Some None
   end.
 Definition to_string (g : gval) : option (option (list Z)) :=
   match g with
   | GStr s => Some (Some s)
   | GBytes s => Some (Some s)
+  | GBool b => Some (Some (if b then [116; 114; 117; 101] else [102; 97; 108; 115; 101]))
+  | GInt t z => if is_goint t then Some (Some (ThriftAnyDesc.dec_text z)) else None
   | _ => None
+  end.
+(* float32(v) for a float64 v: correctly rounded; infinities stay; NaN payloads are outside the model *)
+Definition narrow32 (b : Z) : option Z :=
+  match J2P.f32_of_f64 b with
+  | Some x => Some x
+  | None => if b mod 2 ^ 52 =? 0 then Some ((if 2 ^ 63 <=? b then 2 ^ 31 else 0) + 2139095040) else None
   end.
 
 Definition as_goint (ty : Z) (g : gval) : option Z :=
@@ -143,8 +159,11 @@ Definition write_scalar (cast : bool) (k : Z) (b : list Z) (g : gval) : wst :=
   else if (k =? 16) || (k =? 6) then with_val (get_int cast GT_I64 (fun z => z) g) b (fun z => le_enc 8 (z mod 2 ^ 64))
   else if k =? 2 then
     with_val (match g with GF32 x => inl x
-                      | _ => match casted cast (to_float64 g) with inl _ => inr 2 | inr c => inr c end end) b
-             (fun x => le_enc 4 x)          (* float32(float64) rounding is outside the model *)
+                      | _ => match casted cast (to_float64 g) with
+                             | inl d => match narrow32 d with Some x => inl x | None => inr 2 end
+                             | inr c => inr c
+                             end end) b
+             (fun x => le_enc 4 x)
   else if k =? 1 then
     with_val (match g with GF64 x => inl x | _ => casted cast (to_float64 g) end) b (fun x => le_enc 8 x)
   else if k =? 9 then
